@@ -17,6 +17,7 @@ EXPLANATION = (
     "otherwise the attribute of the first node on the args[0] chain of self._q_ast that carries it (R4); value_async writes nothing but "
     "locals, so concurrent executions cannot interfere whatever their completion order (R5); find_EventDataset visits every child of "
     "every other call, raises on a second root and when none was found (R6)."
+    " (R7) no deepcopy of a stream's AST (it would clone the dataset and its executor); (R8) the three entry points are defined on ObjectStream only; (R9) the cleaner that prepares the executor's argument removes exactly the empty wrappers at every depth - the rule set of C15 is re-evaluated here."
 )
 NOT_DECIDED = "behaviour of make_it_sync.make_sync (third party) and of the executors themselves."
 
